@@ -739,6 +739,10 @@ impl<'a> Case<'a> {
                     return None;
                 }
                 if let Some(a) = baddr {
+                    // a bound socket also takes broadcast / multicast datagrams, of its own address family
+                    if a.is_v4() != inb.dst.is_v4() {
+                        return None;
+                    }
                     let bm = inb.dst == LIMITED_BROADCAST || inb.dst == SUBNET_BROADCAST || inb.dst.is_multicast();
                     if a != inb.dst && !bm {
                         return None;
